@@ -53,7 +53,7 @@ PARTIAL = [
 ]
 ASSUMPTIONS = [
     'IsQuantileOf(percent_point, cdf) for every fitted non-constant univariate — validated each run on a grid '
-    '(assume:quantile-pair: percent_point non-decreasing; cdf(Q(q) - 4ulp) <= q <= cdf(Q(q) + 4ulp) within 1e-6)',
+    '(assume:quantile-pair: percent_point non-decreasing; cdf(Q(q) - 4ulp) <= q <= cdf(Q(q) + 4ulp) within 1e-6; 1e-3 on ill-scaled columns whose range is below 1e-3 of their magnitude)',
     'IsStdNormalCDF for scipy.stats.norm.cdf — proved for Mathlib\'s standard normal cdf (Real/PITMeasure.lean); '
     'scipy\'s ndtr is validated strictly increasing with values in (0,1) on the recorded draws',
     'MvnShape: np.random.multivariate_normal(mean, cov, size=n) returns an (n, d) float array — checked on every '
@@ -76,7 +76,11 @@ FQN = {'GaussianUnivariate': 'copulas.univariate.gaussian.GaussianUnivariate',
        'Univariate': 'copulas.univariate.base.Univariate'}
 KIND2CLASS = {'gaussian': 'GaussianUnivariate', 'beta': 'BetaUnivariate', 'gamma': 'GammaUnivariate',
               'uniform': 'UniformUnivariate', 'student_t': 'StudentTUnivariate', 'log_laplace': 'LogLaplace',
-              'truncated': 'TruncatedGaussian', 'kde': 'GaussianKDE', 'ints': 'GaussianKDE', 'const': 'GaussianUnivariate'}
+              'truncated': 'TruncatedGaussian', 'kde': 'GaussianKDE', 'ints': 'GaussianKDE', 'const': 'GaussianUnivariate',
+              'near_epoch': 'GaussianUnivariate', 'near_kilo': 'GaussianUnivariate', 'near_tiny': 'GaussianUnivariate'}
+NEAR = ('near_epoch', 'near_kilo', 'near_tiny')
+# families whose fit cannot collapse on a column with > 1 distinct values (moment / range / kernel estimates)
+ROBUST = ('GaussianUnivariate', 'UniformUnivariate', 'GaussianKDE')
 FAST = ('GaussianUnivariate', 'UniformUnivariate', 'GammaUnivariate', 'GaussianKDE', 'LogLaplace')
 SLOW = ('BetaUnivariate', 'StudentTUnivariate', 'TruncatedGaussian')
 DELTA = 1e-13          # false-alarm probability of ONE statistical test (<= 1e4 tests per run -> <= 1e-9 in total)
@@ -138,6 +142,14 @@ def marginal(rng, kind):
     if kind == 'kde':
         w = rng.choice([1.5, 2.5])
         return (lambda z: loc + scale * (z + w * np.tanh(2.0 * z))), f'bimodal({w})'
+    if kind == 'near_epoch':      # epoch seconds spread over a few hours: range / magnitude ~ 5e-6
+        w = rng.choice([600.0, 1500.0, 2500.0])
+        return (lambda z: 1.7e9 + w * z), f'epoch(1.7e9,{w})'
+    if kind == 'near_kilo':       # 1000 + 1e-3 y
+        w = rng.choice([1e-3, 5e-4])
+        return (lambda z: 1000.0 + w * z), f'kilo(1000,{w})'
+    if kind == 'near_tiny':       # readings ~ 1e-9: range below 1e-8 absolute
+        return (lambda z: 3e-9 + 1e-9 * st.norm.cdf(z)), 'tiny(3e-9,1e-9)'
     if kind == 'ints':
         m = rng.choice([2.0, 5.0])
         return (lambda z: np.round(st.gamma.ppf(st.norm.cdf(z), m) * 2.0)), f'ints({m})'
@@ -156,6 +168,8 @@ def gen_table(rng, nr, rows=None, allow_kde=True):
     cols, kinds, descr = [], [], []
     n_const = rng.choice([0, 0, 0, 0, 1, 1, 2]) if k > 2 else rng.choice([0, 0, 0, 1])
     const_at = set(rng.sample(range(k), n_const))
+    # about 1 table in 4 has a NON-constant column whose range is tiny relative to its magnitude (or absolutely)
+    near_at = rng.randrange(k) if rng.random() < 0.25 else -1
     for j in range(k):
         if j in const_at:
             c = rng.choice([0.0, 1.0, -3.5, 5.0, 1e6, 0.1, 3.25])
@@ -164,6 +178,8 @@ def gen_table(rng, nr, rows=None, allow_kde=True):
             descr.append(f'const({c})')
             continue
         kind = rng.choice(kinds_pool)
+        if near_at == j:
+            kind = rng.choice(NEAR)
         q, d = marginal(rng, kind)
         x = np.asarray(q(Z[:, j]), dtype=float)
         if kind == 'ints' and np.all(x == x[0]):
@@ -405,6 +421,18 @@ def table_request(cmd, case, *pre):
 
 
 # --------------------------------------------------------------------------------------------- oracles
+def has_constant_override(uni):
+    """the real univariate (or the instance selected by `Univariate`) carries `_replace_constant_methods`' overrides,
+    i.e. it was fitted AS a constant column."""
+    for u in (uni, getattr(uni, '_instance', None)):
+        if u is None:
+            continue
+        f = vars(u).get('percent_point')
+        if f is not None and getattr(f, '__name__', '') == '_constant_percent_point':
+            return True
+    return False
+
+
 def kde_backed(uni):
     return type(uni).__name__ == 'GaussianKDE' or type(getattr(uni, '_instance', None)).__name__ == 'GaussianKDE'
 
@@ -455,11 +483,82 @@ def schema_problems(model, case, out, n, draws=None):
     return probs
 
 
+def numeric_slack(train):
+    """(tolerance of the cdf/percent_point round trip, slack added to the KS band) for one training column.
+    On an ill-scaled column (range below 1e-3 of the magnitude: timestamps, 1000 + 1e-3 y) scipy's location-scale
+    laws with huge shape parameters (a LogLaplace / Gamma fit with c ~ 1e7 and loc ~ -1e7) evaluate cdf with a
+    cancellation error of ~1e-5; that is binary64 conditioning of a legal fit, not a broken quantile pair."""
+    t = np.asarray(train, dtype=float)
+    mag = max(abs(float(t.max())), abs(float(t.min())), 1e-300)
+    if (float(t.max()) - float(t.min())) / mag >= 1e-3:
+        return 1e-6, 1e-4
+    return 1e-3, 2e-3
+
+
 def ulp_nbhd(x, k=4):
     """x -/+ k units in the last place."""
     x = np.asarray(x, dtype=float)
     h = k * np.spacing(np.abs(x))
     return x - h, x + h
+
+
+def ks_two_sample(a, b):
+    a, b = np.sort(np.asarray(a, dtype=float)), np.sort(np.asarray(b, dtype=float))
+    allv = np.concatenate([a, b])
+    Fa = np.searchsorted(a, allv, side='right') / len(a)
+    Fb = np.searchsorted(b, allv, side='right') / len(b)
+    return float(np.max(np.abs(Fa - Fb)))
+
+
+def empirical_law_problems(case, unis, cols):
+    """C01 against the TRAINING data: a training column with > 1 distinct values must not come back as a constant
+    column, and (where the configured family cannot be blamed for a misfit) its sampled values must follow the
+    column's empirical law.  -> list of (class suffix, column, observed, required).
+    * not-constant: for every column whose requested family is ROBUST (Gaussian / Uniform / KDE: moment, range and
+      kernel estimates cannot collapse), the default selection, or the family matched to the generating law.
+      (A collapsed scipy MLE of a mis-specified family — Beta on heavy-tailed data — is a misfit, not this class.)
+    * range: central 98% of the sample inside the training range extended by 3 ranges on each side (ROBUST only).
+    * ECDF: two-sample KS(training, sample) <= DKW(n_train) + DKW(n_sample) + 0.15 for GaussianKDE and for the matched
+      family of a closed-form generating law (each DKW radius at false-alarm probability DELTA; 0.15 is slack for the
+      parametric estimation error, >= 5x the largest value seen in calibration)."""
+    out = []
+    requested = requested_classes(case)
+    for j, (kind, rq) in enumerate(zip(case['kinds'], requested)):
+        tr = np.asarray(case['cols'][j], dtype=float)
+        if len(np.unique(tr)) < 2 or j not in cols:
+            continue
+        v = np.asarray(cols[j], dtype=float)
+        if len(v) < 50 or not np.all(np.isfinite(v)):
+            continue
+        # matched = the configured family IS the generating one, for the laws whose scipy MLE is dependable
+        # (LogLaplace / Beta / Student t / truncated-normal fits with free location can be far off even on their
+        # own data: a fit-quality matter, property C04, not this oracle)
+        matched = kind in ('gaussian', 'uniform', 'gamma') + NEAR and KIND2CLASS[kind] == rq
+        eligible = rq in ROBUST or rq == 'Univariate' or matched
+        if not eligible:
+            continue
+        if len(np.unique(v)) == 1:
+            out.append(('nonconstant-column-sampled-constant', j,
+                        {'training_distinct': int(len(np.unique(tr))), 'training_min': float(tr.min()),
+                         'training_max': float(tr.max()), 'sampled_constant': float(v[0]),
+                         'constant_override': has_constant_override(unis[j]), 'requested': rq},
+                        'a training column with > 1 distinct values is not sampled as a constant column'))
+            continue
+        R = float(tr.max() - tr.min())
+        if rq in ROBUST:
+            lo, hi = np.quantile(v, [0.01, 0.99])
+            if not (tr.min() - 3 * R <= lo and hi <= tr.max() + 3 * R):
+                out.append(('sample-outside-training-range', j,
+                            {'sample_q01_q99': [float(lo), float(hi)], 'training_range': [float(tr.min()), float(tr.max())],
+                             'requested': rq},
+                            'central 98% of the sampled column inside the training range extended by 3 ranges'))
+        if (rq == 'GaussianKDE' and kind != 'ints') or matched:
+            D = ks_two_sample(tr, v)
+            band = dkw_eps(len(tr)) + dkw_eps(len(v)) + 0.15
+            if not D <= band:
+                out.append(('sample-not-like-training-data', j, {'ks_two_sample': D, 'band': band, 'requested': rq},
+                            f'KS(training ECDF, sample ECDF) <= {band:.3f}'))
+    return out
 
 
 def ks_distance(sample, cdf):
@@ -567,9 +666,12 @@ def tie_case(ctx, lean, case, ns, note):
                 p = np.asarray(unis[j].percent_point(np.array([0.001, 0.25, 0.75, 0.999])), dtype=float)
                 ok_fit = ok_fit and bits_equal(p, np.full(4, c))
             else:
-                ok_fit = ok_fit and mun[j] == 'E%d' % j
+                # the model says: > 1 distinct training values => an ordinary (external) fit, never the constant one
+                ok_fit = ok_fit and mun[j] == 'E%d' % j and not has_constant_override(unis[j])
     if not ok_fit:
-        note('corr:fit-columns', {'model': reply[:200], 'real_columns': real_cols, 'case': brief(case)})
+        note('corr:fit-columns', {'model': reply[:200], 'real_columns': real_cols,
+                                  'real_constant_override': [has_constant_override(u) for u in unis],
+                                  'case': brief(case)})
     status = [col_status(unis[j], case['cols'][j]) if j < len(unis) else 'const' for j in range(d)]
     for sname in status:
         ctx.count('column-status:' + sname)
@@ -698,7 +800,8 @@ def validate_assumptions(ctx, case, unis, status, note):
         ctx.count('quantile-pair-validated')
         # Q(q) <= x <-> q <= F(x), read at binary64 resolution: F(Q(q) - 4ulp) <= q <= F(Q(q) + 4ulp), up to 1e-6
         viol = np.maximum(clo - q, q - chi)
-        ok = bool(mono and np.all(np.isfinite(clo)) and np.all(np.isfinite(chi)) and np.max(viol) <= 1e-6)
+        tol = numeric_slack(case['cols'][j])[0]
+        ok = bool(mono and np.all(np.isfinite(clo)) and np.all(np.isfinite(chi)) and np.max(viol) <= tol)
         if not ok:
             i = int(np.argmax(viol)) if np.all(np.isfinite(viol)) else 0
             note('assume:quantile-pair', {'column': j, 'univariate': type(u).__name__, 'q': float(q[i]),
@@ -753,12 +856,163 @@ def search(ctx, deep):
     for t in range(ntab):
         case = make_case(rng, nr, quick=True, allow_kde=(t % 3 == 0 if deep else t == 0))
         oracle_case(ctx, case, stats, schema_ns=[1, rng.randint(2, 200)], big=True,
-                    hunt=(3000 if deep else (1500 if t < 2 else -1)))
+                    hunt=(3000 if deep else (1500 if t < 2 else -1)), light=not deep)
+    # awkward scales (non-constant columns that are "close" to constant) and dependence next to a constant column
+    rng2 = ctx.rng('search', 'stress')
+    nr2 = ctx.nprng('search', 'stress')
+    for t in range((4 if quick else 10) if deep else 2):
+        case = scale_stress_case(rng2, nr2, deep)
+        stats['scale_stress_tables'] = stats.get('scale_stress_tables', 0) + 1
+        oracle_case(ctx, case, stats, schema_ns=[rng2.randint(2, 200)], big=True, light=not deep)
+    for t in range((3 if quick else 8) if deep else 1):
+        dependence_oracle(ctx, dependence_case(rng2, nr2), stats)
     if deep:
         for t in range(3 if quick else 8):
             recovery_experiment(ctx, rng, nr, stats, use_default=(t == 0))
     stats['failures'] = len(ctx.failing)
     ctx.support = stats
+
+
+def normal_score_corr(case, unis, j, k):
+    """Pearson correlation of the normal scores norm.ppf(clip(cdf_j(x_j))) of two training columns, computed here
+    from the REAL fitted univariates (what `model.correlation[j, k]` has to be, property C02)."""
+    eps32 = float(np.finfo(np.float32).eps)
+    zs = []
+    for i in (j, k):
+        u = np.asarray(unis[i].cdf(np.asarray(case['cols'][i], dtype=float)), dtype=float).clip(eps32, 1 - eps32)
+        zs.append(st.norm.ppf(u))
+    if np.std(zs[0]) == 0 or np.std(zs[1]) == 0:
+        return None
+    return float(np.corrcoef(zs[0], zs[1])[0, 1])
+
+
+def correlation_entry_problems(case, model, unis, regular):
+    """`model.correlation` entries of the non-degenerate columns vs the normal-score correlation of the training
+    data (tolerance 1e-6; the singularity ridge only touches the diagonal)."""
+    out = []
+    C = model.correlation.to_numpy()
+    for a in range(len(regular)):
+        for b in range(a + 1, len(regular)):
+            j, k = regular[a], regular[b]
+            want = normal_score_corr(case, unis, j, k)
+            if want is None or not np.isfinite(want):
+                continue
+            if not abs(C[j, k] - want) <= 1e-6 or not abs(C[k, j] - want) <= 1e-6:
+                out.append(([j, k], {'model_correlation': float(C[j, k]), 'normal_score_correlation': want}))
+    return out
+
+
+def scale_stress_case(rng, nr, deep):
+    """a table whose NON-constant columns live on awkward scales (epoch seconds within a few hours, readings ~1e-9,
+    1000 + 1e-3 y), an ordinary column and a truly constant flag; Gaussian marginals in the five configuration forms."""
+    n = rng.choice([300, 800, 1500])
+    kinds = ['near_epoch', 'near_tiny', 'near_kilo', 'gaussian']
+    rng.shuffle(kinds)
+    kinds = kinds[:rng.choice([3, 4])]
+    R, L = random_correlation(rng, nr, len(kinds))
+    Z = nr.randn(n, len(kinds)) @ L.T
+    cols, descr = [], []
+    for j, kd in enumerate(kinds):
+        q, dsc = marginal(rng, kd)
+        cols.append(np.asarray(q(Z[:, j]), dtype=float))
+        descr.append(dsc)
+    at = rng.randrange(len(kinds) + 1)
+    kinds.insert(at, 'const')
+    cols.insert(at, np.full(n, 7.0))
+    descr.insert(at, 'const(7.0)')
+    labels = rng.sample(['timestamp', 'reading', 'score', 'flag', 'level', 'x'], len(kinds))
+    form = rng.choice(['class', 'str', 'inst', 'dict', 'dict'] + (['default'] if deep else []))
+    if form == 'default':
+        spec = ['default']
+    elif form == 'dict':
+        spec = ['dict', {enc_label(lab): [rng.choice(['class', 'str', 'inst']),
+                                          rng.choice(['GaussianUnivariate', 'GaussianUnivariate', 'GaussianKDE',
+                                                      'UniformUnivariate'])]
+                         for lab in labels}]
+    else:
+        spec = [form, 'GaussianUnivariate']
+    return {'labels': labels, 'cols': [c.tolist() for c in cols], 'kinds': kinds, 'descr': descr, 'config': spec,
+            'seed': ['int', rng.randrange(2 ** 31)]}
+
+
+N_DEP_TRAIN = 2000
+
+
+def dependence_case(rng, nr):
+    """training table FROM a Gaussian copula: a strongly dependent pair (|rho| in 0.85..0.92, Gaussian / Gamma
+    marginals), a third column, and a CONSTANT column somewhere; matched families in the configuration."""
+    rho = rng.choice([-1, 1]) * rng.uniform(0.85, 0.92)
+    r13, r23 = rng.uniform(-0.3, 0.3), rng.uniform(-0.3, 0.3)
+    R = np.array([[1.0, rho, r13], [rho, 1.0, r23], [r13, r23, 1.0]])
+    while np.min(np.linalg.eigvalsh(R)) < 0.05:
+        r13, r23 = r13 / 2, r23 / 2
+        R = np.array([[1.0, rho, r13], [rho, 1.0, r23], [r13, r23, 1.0]])
+    Z = nr.randn(N_DEP_TRAIN, 3) @ np.linalg.cholesky(R).T
+    kinds = [rng.choice(['gaussian', 'gamma']), rng.choice(['gaussian', 'gamma']), rng.choice(['gaussian', 'gamma', 'uniform'])]
+    cols, descr = [], []
+    for j, kd in enumerate(kinds):
+        q, dsc = marginal(rng, kd)
+        cols.append(np.asarray(q(Z[:, j]), dtype=float))
+        descr.append(dsc)
+    order = [0, 1, 2]
+    rng.shuffle(order)
+    kinds = [kinds[i] for i in order]
+    cols = [cols[i] for i in order]
+    descr = [descr[i] for i in order]
+    at = rng.randrange(4)
+    kinds.insert(at, 'const')
+    cols.insert(at, np.full(N_DEP_TRAIN, rng.choice([0.0, 7.0, -2.5])))
+    descr.insert(at, 'const')
+    labels = rng.sample(['a', 'b', 'c', 'd', 'e', 10, 3, 7, 21], 4)
+    if any(isinstance(x, int) for x in labels) and not all(isinstance(x, int) for x in labels):
+        labels = [str(x) for x in labels]
+    spec = ['dict', {enc_label(lab): [rng.choice(['class', 'str', 'inst']), KIND2CLASS[kd]]
+                     for lab, kd in zip(labels, kinds)}]
+    return {'labels': labels, 'cols': [c.tolist() for c in cols], 'kinds': kinds, 'descr': descr, 'config': spec,
+            'seed': ['int', rng.randrange(2 ** 31)], 'true_rho': rho}
+
+
+def dependence_oracle(ctx, case, stats):
+    """"recovered within sampling error", dependence part, on a table that also holds a constant column:
+    |tau(sampled pair) - tau(training pair)| <= Hoeffding(n_train) + Hoeffding(n_sample) + 0.06, each Hoeffding radius
+    at false-alarm probability DELTA (tau-a is a U-statistic; E tau_train = (2/pi) asin rho, E tau_sample =
+    (2/pi) asin rho_fitted); 0.06 covers the estimation error of rho_fitted at n_train = 2000 (standard error
+    ~0.01, >= 5x the largest deviation seen in calibration).  And model.correlation == normal-score correlation."""
+    ep = 'GaussianMultivariate.fit'
+    cls = ep + ':dependence-not-recovered'
+    stats['dependence_experiments'] = stats.get('dependence_experiments', 0) + 1
+    inp = case_input(case, n=N_BIG, experiment='dependence')
+    try:
+        model, X = fit_model(case)
+        out, calls = real_sample(model, case, N_BIG, True)
+    except Exception as e:  # noqa
+        ctx.fail_input(ep, inp, 'raised ' + repr(e)[:300], 'fit + sample succeed', ep + ':recovery-raises')
+        return
+    for what, obs in schema_problems(model, case, out, N_BIG, calls[0]['out'] if len(calls) == 1 else None):
+        ctx.fail_input('GaussianMultivariate.sample', inp, obs, 'schema', f'GaussianMultivariate.sample:schema-{what}')
+    unis = list(model.univariates)
+    d = len(case['labels'])
+    regular = [j for j in range(d) if col_status(unis[j], case['cols'][j]) == 'regular']
+    for pair, obs in correlation_entry_problems(case, model, unis, regular):
+        ctx.fail_input(ep, dict(inp, columns=pair), obs,
+                       'model.correlation[j, k] = Pearson correlation of the training normal scores (1e-6)', cls)
+    n_t = len(case['cols'][0])
+    band = hoeffding_tau_eps(n_t) + hoeffding_tau_eps(N_BIG) + 0.06
+    for a in range(len(regular)):
+        for b in range(a + 1, len(regular)):
+            j, k = regular[a], regular[b]
+            oj, ok_ = out.iloc[:, j].to_numpy(), out.iloc[:, k].to_numpy()
+            if not (np.all(np.isfinite(oj)) and np.all(np.isfinite(ok_))):
+                continue
+            tau_t = float(st.kendalltau(case['cols'][j], case['cols'][k]).statistic)
+            tau_s = float(st.kendalltau(oj, ok_).statistic)
+            stats['max_dependence_tau_dev'] = max(stats.get('max_dependence_tau_dev', 0.0), abs(tau_t - tau_s))
+            if not abs(tau_t - tau_s) <= band:
+                ctx.fail_input(ep, dict(inp, columns=[j, k]),
+                               {'tau_training': tau_t, 'tau_sampled': tau_s, 'band': band,
+                                'model_correlation': float(model.correlation.to_numpy()[j, k])},
+                               f'|tau(sampled pair) - tau(training pair)| <= {band:.3f} (Hoeffding, training and sample '
+                               f'error, false-alarm probability {2 * DELTA:g})', cls)
 
 
 def extreme_seed(corr, cols, n, budget, thresh=5.17):
@@ -817,7 +1071,7 @@ def tail_hunt(ctx, case, model, stats, budget):
                        'normal draws are extreme', f'{ep}:schema-{what}')
 
 
-def oracle_case(ctx, case, stats, schema_ns, big, only=None, hunt=0):
+def oracle_case(ctx, case, stats, schema_ns, big, only=None, hunt=0, light=False):
     """C01 on the real code for one fitted model.  `only` restricts to one failure class (replay)."""
     ep = 'GaussianMultivariate.sample'
     try:
@@ -850,7 +1104,9 @@ def oracle_case(ctx, case, stats, schema_ns, big, only=None, hunt=0):
         first = True
     if not big:
         return
-    n = N_BIG
+    # GaussianKDE.percent_point costs ~0.12 ms per cell: in the shallow (quick-tier) search a model with several
+    # KDE-backed columns is sampled 4000 times instead of 20000 (the bands below scale with n)
+    n = N_BIG if (not light or sum(1 for u in unis if kde_backed(u)) <= 1) else 4000
     try:
         out, calls = real_sample(model, case, n, first)
     except Exception as e:  # noqa
@@ -868,6 +1124,15 @@ def oracle_case(ctx, case, stats, schema_ns, big, only=None, hunt=0):
     nonconst = [j for j in range(d) if status[j] == 'regular']
     eps = dkw_eps(n) + 1e-4
     cols = {j: out.iloc[:, j].to_numpy() for j in range(d)}
+    # against the training data: no non-constant column collapses, the sample looks like the column
+    stats['empirical_law_checks'] = stats.get('empirical_law_checks', 0) + 1
+    for what, j, obs, req in empirical_law_problems(case, unis, cols):
+        ctx.fail_input(ep, case_input(case, n=n, column=j), obs, req, f'{ep}:{what}')
+    stats['correlation_entry_checks'] = stats.get('correlation_entry_checks', 0) + 1
+    for pair, obs in correlation_entry_problems(case, model, unis, nonconst):
+        ctx.fail_input('GaussianMultivariate.fit', case_input(case, n=N_BIG, columns=pair), obs,
+                       'model.correlation[j, k] = Pearson correlation of the training normal scores (1e-6)',
+                       'GaussianMultivariate.fit:dependence-not-recovered')
     # marginals: KS distance to the FITTED marginal
     for j in nonconst:
         if not np.all(np.isfinite(cols[j])):
@@ -875,6 +1140,7 @@ def oracle_case(ctx, case, stats, schema_ns, big, only=None, hunt=0):
         D = ks_distance(cols[j], unis[j].cdf)
         stats['ks_tests'] += 1
         stats['max_ks'] = max(stats['max_ks'], D)
+        eps = dkw_eps(n) + numeric_slack(case['cols'][j])[1]
         if not D <= eps:
             ctx.fail_input(ep, case_input(case, n=n, column=j), {'ks_distance': D, 'band': eps,
                                                                   'univariate': type(unis[j]).__name__},
@@ -1004,10 +1270,13 @@ def replay(ctx, payload):
     before = len(ctx.failing)
     stats = {'tables': 0, 'schema_checks': 0, 'ks_tests': 0, 'kendall_exact': 0, 'kendall_value': 0,
              'rank_preservation': 0, 'recovery_experiments': 0, 'max_ks': 0.0, 'max_tau_dev': 0.0}
-    if 'cols_hex' in inp:
+    if inp.get('experiment') == 'dependence':
+        dependence_oracle(ctx, case_from_input(inp), stats)
+    elif 'cols_hex' in inp:
         case = case_from_input(inp)
         n = int(inp.get('n', 1))
-        oracle_case(ctx, case, stats, schema_ns=[n] if n != N_BIG else [], big=(n == N_BIG))
+        oracle_case(ctx, case, stats, schema_ns=[n] if n not in (N_BIG, 4000) else [], big=(n in (N_BIG, 4000)),
+                    light=(n == 4000))
     else:
         search(ctx, True)
     return any(f['class'] == cls for f in ctx.failing[before:])
